@@ -180,6 +180,21 @@ COMMENT_HOSTS = [
     "CREATE TABLE t (a INT NOT NULL, b VARCHAR(10) DEFAULT 'x')",
     "UPDATE t SET a = 1, b = b + 1 WHERE c = 2",
 ]
+# hosts for the multi-line-content variants: string literals / identifiers below every kind of node that lays out its children itself
+ML_HOSTS = [
+    "SELECT SUM(x) FILTER(WHERE y = 'l1' AND z LIKE 'l2') AS s, COUNT(*) FILTER(WHERE w IN ('a', 'b')) FROM t",
+    "SELECT SUM(x) OVER (PARTITION BY COALESCE(y, 'p1') ORDER BY CASE WHEN z = 'o1' THEN 1 ELSE 2 END) FROM t WINDOW w AS (PARTITION BY 'w1')",
+    "SELECT CASE x WHEN 'c1' THEN 'r1' ELSE CONCAT('e1', f('e2', g('e3'))) END AS c, CAST('d1' AS TEXT), 'n1' || 'n2' FROM t WHERE a BETWEEN 'b1' AND 'b2'",
+    "SELECT a FROM t JOIN u ON t.s = 'j1' AND u.s <> 'j2' WHERE EXISTS (SELECT 1 FROM v WHERE v.s = 'x1') AND t.s IN (SELECT 's1' UNION ALL SELECT 's2')",
+    "WITH c AS (SELECT 'w1' AS a) SELECT a, (SELECT MAX('q1') FROM c) FROM c GROUP BY a, 'g1' HAVING MAX(a) > 'h1' ORDER BY 'o1', a LIMIT 3",
+    "INSERT INTO t (a, b) VALUES ('v1', 'v2'), ('v3', NULL)",
+    "CREATE TABLE t (a VARCHAR(10) DEFAULT 'd1' NOT NULL, b INT COMMENT 'c1', CHECK (a <> 'k1'))",
+    "UPDATE t SET a = 'u1', b = REPLACE(b, 'u2', 'u3') WHERE c = 'u4'",
+    "SELECT * FROM t PIVOT(SUM(x) FOR y IN ('p1', 'p2')) AS p",
+    "SELECT a FROM t WHERE s = ANY(ARRAY['a1', 'a2']) AND NOT (s = 'n1' OR s IS NULL) AND s NOT LIKE 'k1' ESCAPE 'e'",
+    "SELECT TRIM(BOTH 'x' FROM s), SUBSTRING(s FROM 1 FOR 2), EXTRACT(YEAR FROM d), INTERVAL '1' DAY, DATE '2020-01-01', f(a => 'k1') FROM t",
+    "MERGE INTO t USING u ON t.a = u.a AND u.s = 'm1' WHEN MATCHED THEN UPDATE SET s = 'm2' WHEN NOT MATCHED THEN INSERT (a, s) VALUES (u.a, 'm3')",
+]
 N_POSITIONS = 8
 
 
@@ -199,6 +214,10 @@ def sources(tier):
                 out.append((h, ("comment", slot, ci)))
         for ci in range(len(COMMENT_TEXTS)):
             out.append((h, ("comment-all", ci)))
+    for h in ML_HOSTS + COMMENT_HOSTS:
+        out.append((h, None))
+        out.append((h, ("ml-strings",)))
+        out.append((h, ("ml-idents",)))
     return out
 
 
@@ -214,13 +233,26 @@ def build_trees(sql, d, variant):
     if variant:
         t = trees[0]
         nodes = list(t.walk())
-        if variant[0] == "comment":
+        if variant[0] == "ml-strings":  # every string literal gets a line break in its text
+            lits = [n for n in nodes if isinstance(n, exp.Literal) and n.is_string]
+            if not lits:
+                return "no-such-position", None
+            for k, n in enumerate(lits):
+                n.set("this", f"{n.this}\n  ml{k}\n")
+        elif variant[0] == "ml-idents":  # every column / alias identifier becomes a quoted one with a line break
+            ids = [n for n in nodes if isinstance(n, exp.Identifier) and isinstance(n.parent, (exp.Column, exp.Alias, exp.TableAlias))]
+            if not ids:
+                return "no-such-position", None
+            for k, n in enumerate(ids):
+                n.set("this", f"{n.this}\n id")
+                n.set("quoted", True)
+        elif variant[0] == "comment":
             pos = _positions(len(nodes))
             slot = variant[1]
             if slot >= len(pos):
                 return "no-such-position", None
             nodes[pos[slot]].comments = [COMMENT_TEXTS[variant[2]]]
-        else:
+        elif variant[0] == "comment-all":
             for k, n in enumerate(nodes):
                 n.comments = [COMMENT_TEXTS[variant[1]].rstrip() + str(k) + " "]
     return "ok", trees
@@ -468,7 +500,8 @@ def run(tier, seed):
         "rule": "distinct (text, dialect, comment variant, statement index) whose tree generated and re-parsed with default options (base "
         "exists), so every option combination of its set was evaluated against it; `evaluations` counts (tree, option combination) pairs",
         "bound": f"tier={tier}: {stats}; trees: STATEMENTS + {len(EXTRA_STATEMENTS)} long/nested/commented statements + {len(COMMENT_HOSTS)} host statements x "
-        f"({N_POSITIONS} node positions x {len(COMMENT_TEXTS)} comment texts + all-nodes-commented x {len(COMMENT_TEXTS)}); option combinations: pairwise cover "
+        f"({N_POSITIONS} node positions x {len(COMMENT_TEXTS)} comment texts + all-nodes-commented x {len(COMMENT_TEXTS)}) + {len(ML_HOSTS) + len(COMMENT_HOSTS)} statements x (as is, a line break in every string literal, "
+        f"a line break in every column / alias identifier); option combinations: pairwise cover "
         "with pretty=True + full (comments, identify, normalize_functions) product with pretty=False + defaults + 2 extremes; thorough adds the full "
         f"product ({len(combos('full')) if tier != 'quick' else 5760}) on {len(FULL_TREES)} statements x {len(FULL_DIALECTS)} dialects and a few long ones",
         "exhaustive": True,
